@@ -779,3 +779,7 @@ mod tests {
         );
     }
 }
+
+#[cfg(any(kani, verif_replay))]
+#[path = "/verif/kani/tlv_toiter.rs"]
+pub(crate) mod verif_kani_tlv_toiter;
